@@ -29,9 +29,36 @@ func init() {
 type steppedStore struct {
 	inner    *factstore.MultiIndexedArrayInMemoryStore
 	universe []ast.Atom
+	// mutual-exclusion oracle: the wrapped store is not safe for concurrent use, so a writer must never be
+	// inside it together with any other operation (with real threads that is a data race)
+	readers, writers int
+	excl             string
+}
+
+func (s *steppedStore) enter(write bool, what string) {
+	if write && (s.readers > 0 || s.writers > 0) || !write && s.writers > 0 {
+		if s.excl == "" {
+			s.excl = fmt.Sprintf("%s entered the wrapped store while %d reader(s) and %d writer(s) were inside it", what, s.readers, s.writers)
+		}
+	}
+	if write {
+		s.writers++
+	} else {
+		s.readers++
+	}
+}
+
+func (s *steppedStore) exit(write bool) {
+	if write {
+		s.writers--
+	} else {
+		s.readers--
+	}
 }
 
 func (s *steppedStore) Add(a ast.Atom) bool {
+	s.enter(true, "Add")
+	defer s.exit(true)
 	present := s.inner.Contains(a)
 	vsync.Step("base.Add: checked, not yet written")
 	if !present {
@@ -42,6 +69,8 @@ func (s *steppedStore) Add(a ast.Atom) bool {
 }
 
 func (s *steppedStore) Remove(a ast.Atom) bool {
+	s.enter(true, "Remove")
+	defer s.exit(true)
 	present := s.inner.Contains(a)
 	vsync.Step("base.Remove: checked, not yet removed")
 	if present {
@@ -51,11 +80,15 @@ func (s *steppedStore) Remove(a ast.Atom) bool {
 }
 
 func (s *steppedStore) Contains(a ast.Atom) bool {
+	s.enter(false, "Contains")
+	defer s.exit(false)
 	vsync.Step("base.Contains")
 	return s.inner.Contains(a)
 }
 
 func (s *steppedStore) GetFacts(q ast.Atom, cb func(ast.Atom) error) error {
+	s.enter(false, "GetFacts")
+	defer s.exit(false)
 	for _, u := range s.universe {
 		vsync.Step("base.GetFacts: next candidate")
 		if u.Predicate == q.Predicate && factstore.Matches(q.Args, u.Args) && s.inner.Contains(u) {
@@ -68,6 +101,8 @@ func (s *steppedStore) GetFacts(q ast.Atom, cb func(ast.Atom) error) error {
 }
 
 func (s *steppedStore) Merge(other factstore.ReadOnlyFactStore) {
+	s.enter(true, "Merge")
+	defer s.exit(true)
 	for _, p := range other.ListPredicates() {
 		other.GetFacts(ast.NewQuery(p), func(a ast.Atom) error {
 			vsync.Step("base.Merge: next atom")
@@ -77,9 +112,18 @@ func (s *steppedStore) Merge(other factstore.ReadOnlyFactStore) {
 	}
 }
 
-func (s *steppedStore) ListPredicates() []ast.PredicateSym { return s.inner.ListPredicates() }
+func (s *steppedStore) ListPredicates() []ast.PredicateSym {
+	s.enter(false, "ListPredicates")
+	defer s.exit(false)
+	vsync.Step("base.ListPredicates: reading")
+	out := s.inner.ListPredicates()
+	vsync.Step("base.ListPredicates: read")
+	return out
+}
 
 func (s *steppedStore) EstimateFactCount() int {
+	s.enter(false, "EstimateFactCount")
+	defer s.exit(false)
 	vsync.Step("base.EstimateFactCount")
 	return s.inner.EstimateFactCount()
 }
@@ -104,11 +148,15 @@ func (o c18Op) String() string {
 		return "GetFacts(p(X))"
 	case "merge":
 		return "Merge({a,b})"
+	case "preds":
+		return "ListPredicates()"
+	case "mergefrom":
+		return "other.Merge(store)"
 	}
 	return "EstimateFactCount()"
 }
 
-var c18Ops = []c18Op{{"add", 0}, {"add", 1}, {"rem", 0}, {"has", 0}, {"has", 1}, {"get", 0}, {"merge", 0}, {"count", 0}}
+var c18Ops = []c18Op{{"add", 0}, {"add", 1}, {"rem", 0}, {"has", 0}, {"has", 1}, {"get", 0}, {"merge", 0}, {"count", 0}, {"preds", 0}, {"mergefrom", 0}}
 
 type c18Event struct {
 	thread    int
@@ -144,6 +192,10 @@ func c18Model(state int, o c18Op) (string, int) {
 		return "{" + strings.Join(xs, ",") + "}", state
 	case "merge":
 		return "", state | 3
+	case "preds", "mergefrom":
+		// read-only; their answers are not judged by the set model (a listing may include emptied predicates, a
+		// merge out of the store reads it in several steps), they are subject to the mutual-exclusion oracle
+		return "", state
 	}
 	n := 0
 	if state&1 != 0 {
@@ -215,6 +267,12 @@ var c18Atoms = func() []ast.Atom { return []ast.Atom{ast.NewAtom("p", ast.Number
 
 // c18Exec runs the scenario under one schedule; returns the scheduler and the history.
 func c18Exec(sc c18Scenario, prefix []int) (*vsync.Sched, []c18Event) {
+	s, ev, _ := c18ExecX(sc, prefix)
+	return s, ev
+}
+
+// c18ExecX also returns the mutual-exclusion oracle's finding ("" if none).
+func c18ExecX(sc c18Scenario, prefix []int) (*vsync.Sched, []c18Event, string) {
 	base := &steppedStore{inner: factstore.NewMultiIndexedArrayInMemoryStore(), universe: c18Atoms}
 	for i, a := range c18Atoms {
 		if sc.init&(1<<i) != 0 {
@@ -257,6 +315,10 @@ func c18Exec(sc c18Scenario, prefix []int) (*vsync.Sched, []c18Event) {
 					store.Merge(src)
 				case "count":
 					ev.result = fmt.Sprint(store.EstimateFactCount())
+				case "preds":
+					store.ListPredicates()
+				case "mergefrom":
+					factstore.NewSimpleInMemoryStore().Merge(store)
 				}
 				clock++
 				ev.ret = clock
@@ -265,7 +327,7 @@ func c18Exec(sc c18Scenario, prefix []int) (*vsync.Sched, []c18Event) {
 		})
 	}
 	s := vsync.Run(prefix, bodies)
-	return s, events
+	return s, events, base.excl
 }
 
 type c18Stats struct {
@@ -377,7 +439,7 @@ func c18RunScenario(sc c18Scenario, bound int) rt.CaseResult {
 		return s
 	}, bound, 200000, func(s *vsync.Sched, prefix []int) bool {
 		// re-execute to obtain the history (c18Exec returns it; run twice for the determinism check on violations only)
-		_, events := c18Exec(sc, choicesOf(s))
+		_, events, excl := c18ExecX(sc, choicesOf(s))
 		res.Counters["transitions"] += int64(len(s.Points))
 		res.Counters["evaluations"]++
 		res.Counters["traces_validated_against_impl"]++
@@ -397,6 +459,12 @@ func c18RunScenario(sc c18Scenario, bound int) rt.CaseResult {
 		}
 		h := historyString(events)
 		histories[h] = true
+		if excl != "" {
+			w["history"] = h
+			res.Violations = append(res.Violations, rt.Violation{Kind: "no-mutual-exclusion", Detail: fmt.Sprintf("%s: %s (schedule %v); the wrapped store is not safe for concurrent use, with real threads this is a data race", sc.String(), excl, choicesOf(s)), Witness: w})
+			violated = true
+			return false
+		}
 		if !c18Linearizable(events, sc.init) {
 			// determinism: the same schedule must give the same history
 			_, ev2 := c18Exec(sc, choicesOf(s))
